@@ -127,6 +127,12 @@ class Rec:
         if tdef.get('payload') is not None:
             args.update(tdef['payload'])
         args.update(kw)
+        if self.scn.get('created') == 'rev':
+            # event objects whose creation times run against the order in which they are dispatched (objects built ahead of time, clock steps):
+            # nothing in the properties depends on event_created_at
+            import datetime as _dt
+            self._created_base = getattr(self, '_created_base', None) or _dt.datetime.now(_dt.timezone.utc)
+            args.setdefault('event_created_at', self._created_base - _dt.timedelta(milliseconds=len(self.events) + 1))
         ev = event_class(ty)(**args)
         self.events.append(ev)
         self.ety.append(ty)
@@ -442,6 +448,7 @@ def make_async_handler(rec, hdef, bus):
                     kids.append(c if _do_dispatch(rec, ('A', act), rec.buses[op[1]], c) else None)
                 elif k == 'cl':      # from here on, a cancellation of this handler is followed by op[1] ms of awaited clean-up
                     cleanup[0] = op[1]
+                    rec.log('HOp', act=act, op='cl')
                 elif k == 'rd':
                     _do_dispatch(rec, ('A', act), rec.buses[op[1]], event)
                 elif k == 'a':
